@@ -61,7 +61,8 @@ Definition c02_check (l : library) (w : wres) : Z :=
     match w with
     | WErr _ => true
     | WPanic => false
-    | WOk bs => stream_wfb bs && match spec_parse bs with Some l' => lib_rust_eqb l l' | None => false end
+    | WOk bs => stream_wfb bs && match split_stream bs with Some (_, []) => true | _ => false end   (* nothing after ENDLIB *)
+                && match spec_parse bs with Some l' => lib_rust_eqb l l' | None => false end
     end in
   code prop_ok model_eq.
 
